@@ -355,7 +355,12 @@ func drawCase(t *rapid.T, nreq int) *Case {
 		// one request that is both slow (a deep chain costs a noticeable
 		// fraction of a second) and contains an incomplete query
 		leaf := fix.ToPB(gen.UTF8Expr(pool.Leaf(t, gen.ExprOpts{})))
-		heavy := &pb.Query{Expr: deepNot(rapid.SampledFrom([]int{3000, 6000}).Draw(t, "heavydepth"), leaf)}
+		// evaluation cost is quadratic in the depth: 9000 levels take a good
+		// fraction of a second, two of them make the request slow for sure
+		// (protobuf-go refuses more than 10000 nested messages = 5000 NOT levels;
+		// 4900 levels cost about half a second each)
+		heavy := &pb.Query{Expr: deepNot(rapid.SampledFrom([]int{4500, 4900}).Draw(t, "heavydepth"), leaf)}
+		heavy2 := &pb.Query{Expr: deepNot(4900, leaf)}
 		var broken *pb.Query
 		switch rapid.IntRange(0, 2).Draw(t, "brokenkind") {
 		case 0:
@@ -365,7 +370,7 @@ func drawCase(t *rapid.T, nreq int) *Case {
 		default:
 			broken = &pb.Query{Expr: &pb.Query_Expression{Value: &pb.Query_Expression_And_{And: &pb.Query_Expression_And{Exprs: []*pb.Query_Expression{{}}}}}}
 		}
-		if w := marshal(&pb.QueryRequest{Queries: []*pb.Query{heavy, broken}}); w != nil {
+		if w := marshal(&pb.QueryRequest{Queries: []*pb.Query{heavy, heavy2, broken}}); w != nil {
 			c.Reqs = append(c.Reqs, Req{Wire: w, Kind: "slow-request-with-incomplete-query"})
 		}
 	}
